@@ -726,7 +726,7 @@ class ServerFamily(RIBFamily):
 
     def vh_args(self, ctx, rc):
         a = ["-random", str(rc["n"]), "-len", str(rc["len"]), "-profile", rc.get("profile", "mixed")]
-        if rc.get("profile") == "get":
+        if rc.get("profile") == "get" or self.prop in ("C07", "C10"):
             # one Get per run is read by a slow consumer (C07: every entry must still arrive; C10: nobody is blocked meanwhile)
             a += ["-getstall", "1500ms" if ctx.tier == "quick" else "6500ms"]
         return a
@@ -773,7 +773,7 @@ _srv("C06",
 _srv("C07",
      mc={"quick": [dict(MaxMsgs=6, MaxOpen=1, HiVals=(0,), LoVals=(1,), OpShapes="chain", StampModes=("last",))],
          "thorough": [dict(MaxMsgs=8, MaxOpen=1, HiVals=(0,), LoVals=(1,), OpShapes="chain", StampModes=("last",))]},
-     sims=_S_SIMS, exh=_S_EXH, random_cfg=_rnd(["get", "ops"], 80, 800))
+     sims=_S_SIMS, exh=_S_EXH, random_cfg=_rnd(["get", "ops"], 80, 800), directed=lambda ctx: c07_directed(ctx))
 _srv("C09",
      mc={"quick": [dict(MaxMsgs=4, MaxOpen=2, ParamMsgs="all", WithBadMsgs=True, AckModes=("RIB", "RIB_FIB"), HiVals=(0,), LoVals=(1,), StampModes=("last", "none"))],
          "thorough": [dict(MaxMsgs=5, MaxOpen=3, ParamMsgs="all", WithBadMsgs=True, AckModes=("RIB", "RIB_FIB"), HiVals=(0,), LoVals=(1, 2), StampModes=("last", "none"))]},
@@ -876,6 +876,17 @@ def c10_directed(ctx):
         w.append({"a": "get", "g": {"ni": "*", "aft": "ALL"}})
         out.append(json.dumps(w))
     return out
+
+
+def c07_directed(ctx):
+    """A Get over two populated instances read by a slow (but connected) consumer: every entry must still arrive."""
+    w = [{"a": "sreset", "nis": ["DEFAULT", "vrf1"], "fwd": True}, {"a": "open", "s": "s1"},
+         _msg("s1", {"k": "params", "red": "SINGLE_PRIMARY", "per": "PRESERVE", "ack": "RIB"}), _msg("s1", {"k": "elec", "id": [0, 1]}),
+         _msg("s1", {"k": "ops", "ops": [_nh(i + 1, ni, 1 + i % 4) for i, ni in enumerate(["DEFAULT"] * 4 + ["vrf1"] * 4)]}),
+         {"a": "get", "g": {"ni": "*", "aft": "ALL"}, "stall": True},
+         _msg("s1", {"k": "ops", "ops": [_nh(20, "DEFAULT", 5)]}),
+         {"a": "get", "g": {"ni": "*", "aft": "nh"}}]
+    return [json.dumps(w)]
 
 
 def c10_getproc_mc(ctx):
